@@ -2,6 +2,7 @@
 C04 — property theorems (statements only; helper lemmas live in `Proofs/C04*.lean`).
 -/
 import Mahotas.Proofs.C04Flood
+import Mahotas.Proofs.C04Term
 open Mahotas Mahotas.C04
 
 /-- **C04-T3 (the kernel is the specified flooding).** For every surface (any rank, shape, values),
@@ -21,6 +22,17 @@ theorem C04_model_refines_flood (surf markers : Img Int) (bshape : List Nat) (bc
   refine ⟨h.ldata.symm, h.ndata.symm, ?_⟩
   rw [h.queue]
   simp
+
+/-- **C04-T3a (the flooding is complete).** The `size + 1` iterations granted to both runs always
+drain the queue (potential = number of white pixels + queue length: kept at `size` by the marker scan,
+lowered by exactly one per iteration), so the outputs compared in `C04_model_refines_flood` are the
+*final* labels and lines of the kernel and of the specified flooding. -/
+theorem C04_flood_drained (surf markers : Img Int) (bshape : List Nat) (bc : Array Int)
+    (hm : markers.shape = surf.shape) (hb : bshape.length = surf.shape.length) :
+    (cwatershedModel surf markers bshape bc).queue = [] ∧
+    (cwatershedSpec surf markers bshape bc).queue = [] := by
+  have h := cwatershed_drained surf markers bshape bc hm hb
+  exact ⟨h, (C04_model_refines_flood surf markers bshape bc hm hb).2.2.1 h⟩
 
 /-- **C04-T1 (margins).** If the margin stored with a queued pixel is a lower bound of its true
 distance to the border, the bounds decision of the inner loop (`nmargin = margin − step`; recompute
